@@ -21,6 +21,12 @@ UNITS = {
               ("0.00000001", "43210.98765432"), ("0.33333333333", "0.7"), ("123456.78901234567", "0.00012345"), ("1", "1")],
     # C08: every lattice overdraft exceeds 1e-10
     "coarse": [("0.0000000002", "1"), ("1", "1"), ("0.5", "10")],
+    # spreadsheet mode (the history goes through a generated .ods and parse_ods): cells are read with 11 decimals, so U, P and U*P have at most
+    # 11 decimals; one pair gives amounts with more than 11 significant digits
+    # (every cell value must survive float -> "%.11f" exactly - at most 15 significant digits in all, amounts and supplied fiat values alike:
+    # a residue of 1e-11 in an amount would be a fraction of its own, noise in a supplied value would not cancel in sums that should be zero)
+    # (a double carries 11 exact decimals only below about 3e4: prices, amounts and supplied values all stay below that)
+    "ods": [("0.5", "10"), ("0.3333333", "0.7"), ("0.00000001", "4321.98"), ("123.456", "0.00012345"), ("1234.56789012", "0.5"), ("0.0001234567", "9876.5")],
     # C08: single debits below the 1e-10 tolerance that add up beyond it (4e-11: one and two units inside the band, three must be rejected)
     "dust": [("0.00000000004", "1000"), ("0.00000000006", "1000")],
 }
@@ -137,7 +143,7 @@ def cfg_countries(h, rnd, tier):
     return res
 
 
-BATCH_DEFAULTS = {"mode": "valid", "sim": None, "depth": None, "sample": None, "configs": cfg_methods, "runs": runs_full, "units": "plain"}
+BATCH_DEFAULTS = {"mode": "valid", "sim": None, "depth": None, "sample": None, "configs": cfg_methods, "runs": runs_full, "units": "plain", "ods": False}
 
 
 def B(slice_, maxtx, **kw):
@@ -154,6 +160,7 @@ def plan(prop, tier):
         mc = [("A", 3, "valid", "single")] if q else [("A", 3, "valid", "all"), ("C", 3, "valid", "single"), ("D", 2, "valid", "all")]
         bs = [B("A", 3 if q else 4), B("C", 3, sample=1500 if q else None), B("D", 2 if q else 3), B("B", 3, sample=2000 if q else None),
               B("Y", 4, sample=400 if q else 6000),           # four calendar years: schedules with three and four entries
+              B("F", 3, ods=True, sample=400 if q else None),  # through the spreadsheet: acquisitions with a crypto fee (artificial fee disposals take part in matching)
               *([B("A", 4, sample=2500)] if q else []),       # (quick: a sample of the depth that thorough takes in full)
               B("A", 12, sim=150 if q else 3000, depth=12), B("Y", 10, sim=100 if q else 2000, depth=10)]
     elif prop == "C02":
@@ -161,6 +168,7 @@ def plan(prop, tier):
         bs = [B("A", 3, mode="any", runs=runs_prefixes, configs=cfg_two_methods, sample=4000 if q else None),
               B("A", 3 if q else 4, sample=None if not q else 4000), B("B", 3, mode="any", runs=runs_prefixes, configs=cfg_one_method, sample=1500 if q else None),
               *([B("A", 4, sample=2500, configs=cfg_two_methods)] if q else []),
+              B("F", 3, ods=True, runs=runs_prefixes, configs=cfg_two_methods, sample=300 if q else None),
               B("B", 4, runs=runs_windows, configs=cfg_one_method, sample=600 if q else 6000),     # a date filter must not change which lots are consumed
               B("C", 3, configs=cfg_two_methods, sample=2500 if q else None),
               B("D", 2 if q else 3, mode="any", runs=runs_prefixes, configs=cfg_two_methods),
@@ -169,12 +177,15 @@ def plan(prop, tier):
         mc = [("T", 2, "valid", "single")] if q else [("T", 3, "valid", "single")]
         bs = [B("T", 3 if q else 4, configs=cfg_one_method, sample=6000 if q else 60000), B("B", 3, configs=cfg_one_method, sample=1500 if q else None),
               B("M", 3, configs=cfg_one_method, sample=1500 if q else 20000),      # transfers between all pairs of accounts, self-transfers with a fee included
+              B("F", 3, ods=True, configs=cfg_one_method, sample=400 if q else None),   # the artificial fee disposal of a crypto-fee acquisition is a taxable event
               B("T", 12, sim=150 if q else 2000, depth=12, configs=cfg_one_method)]
     elif prop == "C04":
         mc = [("V", 2, "valid", "single")] if q else [("V", 3, "valid", "single"), ("B", 3, "valid", "single")]
         bs = [B("V", 3, units="sweep", configs=cfg_one_method, sample=2500 if q else None), B("D", 2 if q else 3, units="sweep", configs=cfg_one_method),
               B("B", 3, units="sweep", configs=cfg_one_method, sample=1500 if q else None),
-              B("V", 10, sim=100 if q else 2000, depth=10, units="sweep", configs=cfg_two_methods)]
+              B("V", 10, sim=100 if q else 2000, depth=10, units="sweep", configs=cfg_two_methods),
+              # the same figures when the transactions come through a spreadsheet (numbers with many digits, crypto fees, exchange-supplied values)
+              B("V", 3, ods=True, configs=cfg_one_method, sample=500 if q else None), B("F", 3, ods=True, configs=cfg_one_method, sample=300 if q else None)]
     elif prop == "C05":
         mc = [("Y", 3, "valid", "single")] if q else [("Y", 4, "valid", "single")]
         bs = [B("Y", 3 if q else 4, configs=cfg_countries, sample=400 if q else 6000), B("C", 3, configs=cfg_countries, sample=300 if q else 3000),
@@ -194,6 +205,8 @@ def plan(prop, tier):
         bs = [B("M", 3, runs=runs_todates, configs=cfg_one_method, sample=1500 if q else 30000), B("B", 3, runs=runs_todates, configs=cfg_one_method, sample=1000 if q else None),
               B("M", 3, mode="any", runs=runs_neg, configs=cfg_one_method, sample=800 if q else 10000),
               B("Z", 3 if q else 4, runs=runs_todates, configs=cfg_one_method, sample=800 if q else 20000),
+              B("M", 3, runs=runs_windows, configs=cfg_one_method, sample=300 if q else 5000),       # balances reflect all history up to the to-date whatever the from-date
+              B("F", 3, ods=True, runs=runs_todates, configs=cfg_one_method, sample=300 if q else None),   # crypto fees on acquisitions leave the account too
               B("M", 10, sim=100 if q else 1500, depth=10, runs=runs_todates, configs=cfg_one_method)]
     elif prop == "C08":
         mc = [("M", 2, "any", "single")] if q else [("M", 3, "any", "single")]
@@ -342,7 +355,9 @@ def make_jobs(prop, tier, rnd):
         for n, h in enumerate(hs):
             for c in b["configs"](h, rnd, tier):
                 U, P = units[rnd.randrange(len(units))] if b["units"] != "sweep" else units[n % len(units)]
-                jobs.append({"h": h, "c": c, "conc": {"U": U, "P": P, "rows": list(range(2, 2 + len(h))), "mode": "api"},
+                if b["ods"]:
+                    U, P = UNITS["ods"][n % len(UNITS["ods"])]
+                jobs.append({"h": h, "c": c, "conc": {"U": U, "P": P, "rows": list(range(2, 2 + len(h))), "mode": "ods" if b["ods"] else "api"},
                              "runs": b["runs"](h, c, rnd, tier), "tag": f'{b["slice"]}{b["maxtx"]}{"s" if b["sim"] else ""}'})
     # G-fix: witnesses of defects that were found and repaired (known_findings.json, "fixed"): they must stay repaired
     import os
